@@ -26,13 +26,13 @@ for m in rbt_shapes(3):
     if m:
         UNITS.append(T("rbt_remove_d3_s%02x" % m, "h_remove", 3, defs=["A_SIZE_POINTER=1", "SHAPE=0x%x" % m], functions=REM, bound=b, timeout=900))
 UNITS += [
-    U("rbt_lemma_remove_step", "rbt_lemma.c", "h_remove_step", level="L", functions=["a_rbt_remove_adjust", "a_rbt_set_parents", "a_rbt_set_parent_color", "a_rbt_set_black"], replay={"prog": "trees_search.c", "sources": ["rbt.c"], "mode": "rbt", "timeout": 600}, min_obl=5, unwind=9,
+    U("rbt_lemma_remove_step", "rbt_lemma.c", "h_remove_step", level="L", functions=["a_rbt_remove_adjust", "a_rbt_set_parents", "a_rbt_set_parent_color", "a_rbt_set_black"], replay={"prog": "trees_search.c", "sources": ["avl.c", "rbt.c"], "mode": "rbt", "timeout": 600}, min_obl=5, unwind=9,
       defines=["LEMMA_REMOVE"], cbmc=["--object-bits", "10"], solver="cadical", timeout=1200, key=["remove_adjust step \\(done\\)", "remove_adjust step \\(continue\\)"]),
     U("rbt_lemma_insert_step", "rbt_lemma.c", "h_insert_step", level="L", functions=["a_rbt_insert_adjust", "a_rbt_set_parents", "a_rbt_set_parent_color"], min_obl=5, unwind=9,
-      replay={"prog": "trees_search.c", "sources": ["rbt.c"], "mode": "rbt", "timeout": 600},
+      replay={"prog": "trees_search.c", "sources": ["avl.c", "rbt.c"], "mode": "rbt", "timeout": 600},
       defines=["LEMMA_INSERT"], cbmc=["--object-bits", "10"], solver="cadical", timeout=1200, key=["insert_adjust step \\(done\\)", "insert_adjust step \\(continue\\)"]),
     U("rbt_lemma_unlink", "rbt_lemma.c", "h_unlink", level="L", functions=["a_rbt_remove", "a_rbt_new_child", "a_rbt_set_parent", "a_rbt_set_parent_color"], min_obl=5, unwind=9,
-      replay={"prog": "trees_search.c", "sources": ["rbt.c"], "mode": "rbt", "timeout": 600}, bound="successor at most 2 levels down the left spine of the right child (subtree sizes unbounded)",
+      replay={"prog": "trees_search.c", "sources": ["avl.c", "rbt.c"], "mode": "rbt", "timeout": 600}, bound="successor at most 2 levels down the left spine of the right child (subtree sizes unbounded)",
       defines=["LEMMA_UNLINK", "MAXDEPTH=2"], mem_gb=24, cbmc=["--object-bits", "10"], solver="cadical", timeout=1200, key=["remove \\(no fix-up needed\\)", "fix-up loop's invariant"]),
     U("rbt_packed_accessors", "trees.c", "h_packed", level="P", functions=["a_rbt_set_parent_color", "a_rbt_set_parent", "a_rbt_set_black", "a_rbt_parent", "a_rbt_color", "a_rbt_init"], replay=RP, min_obl=3, defines=["TREE_RBT", "D=2"], cbmc=["--object-bits", "10"]),
     T("rbt_insert_d2_packed", "h_insert", 2, tiers=("thorough",), functions=INS, timeout=1800, cost=100, mem_gb=40),
